@@ -297,6 +297,71 @@ class Gen:
         for d in L.data:
             self.w("%so.kv(%s, sbepp::size_bytes(%s.%s()));" % (pad, cstr("d:" + d.name), v, d.name))
 
+    # -------------------------------------------------- cursor interpreter
+    WRAPS = [("p", "c"), ("i", "sbepp::cursor_ops::init(c)"), ("d", "sbepp::cursor_ops::dont_move(c)"),
+             ("j", "sbepp::cursor_ops::init_dont_move(c)"), ("s", "sbepp::cursor_ops::skip(c)")]
+
+    def cursor_level(self, L, fname):
+        """void fname(V v, C& c, Tokens& tk, Out& o, const unsigned char* p): interprets member steps until 'x'"""
+        w = self.w
+        for g in L.groups:
+            self.cursor_level(g, fname + "_" + str(L.groups.index(g)))
+        w("template<typename V_, typename C_> static void %s(V_ v, C_& c, rt::Tokens& tk, rt::Out& o, unsigned char* p) {" % fname)
+        w("    while(tk.more()) { std::string t = tk.next();")
+        w("        if(t == \"x\") return;")
+        w("        if(t == \"P\") { c.pointer() = p + tk.dec(); o.kv(\"c\", c.pointer() - p); continue; }")
+        fields = [m for m in L.fields if not m.is_const]
+        w("        if(t == \"f\") { std::size_t k = tk.dec(); std::string wr = tk.next(); std::string rw = tk.next(); (void)rw; switch(k) {")
+        for i, m in enumerate(fields):
+            w("        case %d: {" % i)
+            nm = cstr(m.name)
+            for wk, wexpr in self.WRAPS:
+                if wk == "s":
+                    w("            if(wr == \"s\") { v.%s(%s); o.tok(\"skipped\"); }" % (m.name, wexpr))
+                else:
+                    w("            if(wr == \"%s\" && rw == \"r\") { cur_report(o, p, %s, v.%s(%s)); }" % (wk, nm, m.name, wexpr))
+            if m.kind in ("scalar", "enum", "set"):
+                T = self.fresh("T")
+                if m.kind == "scalar":
+                    mk = "%s(rt::from_bits<%s>(bits_))" % (T, CPP_PRIM[m.prim])
+                elif m.kind == "enum":
+                    mk = "rt::enum_from_bits<%s>(bits_)" % T
+                else:
+                    mk = "%s(rt::from_bits<%s>(bits_))" % (T, CPP_PRIM[m.prim])
+                w("            if(rw == \"w\") { typedef decltype(v.%s()) %s; std::uint64_t bits_ = tk.u64(); %s val_ = %s;" % (m.name, T, T, mk))
+                for wk, wexpr in self.WRAPS:
+                    if wk != "s":
+                        w("                if(wr == \"%s\") v.%s(val_, %s);" % (wk, m.name, wexpr))
+                w("                o.tok(\"written\"); }")
+            w("            break; }")
+        w("        default: o.err(\"bad field index\"); }")
+        w("            o.kv(\"c\", c.pointer() - p); continue; }")
+        w("        if(t == \"g\") { std::size_t k = tk.dec(); std::string wr = tk.next(); switch(k) {")
+        for i, g in enumerate(L.groups):
+            w("        case %d: {" % i)
+            w("            if(wr == \"s\") { v.%s(sbepp::cursor_ops::skip(c)); o.tok(\"skipped\"); o.kv(\"c\", c.pointer() - p); break; }" % g.name)
+            w("            auto g_ = (wr == \"p\") ? v.%s(c) : (wr == \"i\") ? v.%s(sbepp::cursor_ops::init(c)) : (wr == \"d\") ? v.%s(sbepp::cursor_ops::dont_move(c)) : v.%s(sbepp::cursor_ops::init_dont_move(c));" % (g.name, g.name, g.name, g.name))
+            w("            o.tok(std::string(\"G \") + %s + \" @\" + std::to_string(reinterpret_cast<unsigned char*>(sbepp::addressof(g_)) - p)); o.kv(\"c\", c.pointer() - p);" % cstr(g.name))
+            w("            std::string it = tk.next();")
+            sub = fname + "_" + str(i)
+            w("            if(it == \"range\") { for(auto e_ : g_.cursor_range(c)) { o.tok(\"E @\" + std::to_string(reinterpret_cast<unsigned char*>(sbepp::addressof(e_)) - p)); %s(e_, c, tk, o, p); } }" % sub)
+            w("            else if(it == \"sub\") { std::size_t pos_ = tk.dec(); { std::string po_ = tk.next(); if(po_ != \"-\") c.pointer() = p + std::strtoull(po_.c_str(), nullptr, 10); } for(auto e_ : g_.cursor_subrange(c, static_cast<typename decltype(g_)::size_type>(pos_))) { o.tok(\"E @\" + std::to_string(reinterpret_cast<unsigned char*>(sbepp::addressof(e_)) - p)); %s(e_, c, tk, o, p); } }" % sub)
+            w("            else if(it == \"subc\") { std::size_t pos_ = tk.dec(); std::size_t cnt_ = tk.dec(); { std::string po_ = tk.next(); if(po_ != \"-\") c.pointer() = p + std::strtoull(po_.c_str(), nullptr, 10); } for(auto e_ : g_.cursor_subrange(c, static_cast<typename decltype(g_)::size_type>(pos_), static_cast<typename decltype(g_)::size_type>(cnt_))) { o.tok(\"E @\" + std::to_string(reinterpret_cast<unsigned char*>(sbepp::addressof(e_)) - p)); %s(e_, c, tk, o, p); } }" % sub)
+            w("            else if(it == \"iter\") { auto b_ = g_.cursor_begin(c); auto e2_ = g_.cursor_end(c); for(; b_ != e2_; ++b_) { auto e_ = *b_; o.tok(\"E @\" + std::to_string(reinterpret_cast<unsigned char*>(sbepp::addressof(e_)) - p)); %s(e_, c, tk, o, p); } }" % sub)
+            w("            o.kv(\"c\", c.pointer() - p);")
+            w("            break; }")
+        w("        default: o.err(\"bad group index\"); } continue; }")
+        w("        if(t == \"d\") { std::size_t k = tk.dec(); std::string wr = tk.next(); switch(k) {")
+        for i, d in enumerate(L.data):
+            w("        case %d: {" % i)
+            w("            if(wr == \"s\") { v.%s(sbepp::cursor_ops::skip(c)); o.tok(\"skipped\"); o.kv(\"c\", c.pointer() - p); break; }" % d.name)
+            w("            auto d_ = (wr == \"p\") ? v.%s(c) : (wr == \"i\") ? v.%s(sbepp::cursor_ops::init(c)) : (wr == \"d\") ? v.%s(sbepp::cursor_ops::dont_move(c)) : v.%s(sbepp::cursor_ops::init_dont_move(c));" % (d.name, d.name, d.name, d.name))
+            w("            o.tok(std::string(\"D \") + %s + \" @\" + std::to_string(reinterpret_cast<unsigned char*>(sbepp::addressof(d_)) - p) + \" n=\" + std::to_string(d_.size())); o.kv(\"c\", c.pointer() - p);" % cstr(d.name))
+            w("            break; }")
+        w("        default: o.err(\"bad data index\"); } continue; }")
+        w("        o.err(\"bad step token \" + t); return; }")
+        w("}")
+
     # ------------------------------------------------------ trait sizes
     def preorder_groups(self, L):
         res = []
@@ -390,6 +455,16 @@ class Gen:
             w("    { rt::Out tmp; dump_cur_%d(p, n, tmp); std::size_t k = tmp.s.rfind(\"cursor_size=\"); o.tok(k == std::string::npos ? std::string(\"cursor_size=?\") : tmp.s.substr(k)); }" % i)
             self.sizes_level(L, "v0", 1)
             w("}")
+            # ---- cursor step interpreter
+            self.cursor_level(L, "cur_%d" % i)
+            w("static void cursor_%d(unsigned char* p, std::size_t n, rt::Tokens& tk, rt::Out& o) {" % i)
+            w("    auto v0 = sbepp::make_view<%s>(p, n);" % view)
+            w("    sbepp::cursor<unsigned char> c;")
+            w("    std::string first = tk.peek();")
+            w("    if(first == \"I\") { tk.next(); c = sbepp::init_cursor(v0); o.kv(\"c\", c.pointer() - p); }")
+            w("    cur_%d(v0, c, tk, o, p);" % i)
+            w("    o.kv(\"size_by_cursor\", sbepp::size_bytes(v0, c));")
+            w("}")
             # ---- trait-level sizes
             w("static void tsize_%d(std::size_t which, rt::Tokens& tk, rt::Out& o) {" % i)
             w("    switch(which) {")
@@ -440,6 +515,12 @@ class Gen:
         w("        default: return false; }")
         w("        if(!gb.canary_ok(p)) o.err(\"write before the buffer\");")
         w("        o.tok(\"BUF \" + rt::Out::hexbytes(p, img.size())); return true; }")
+        w("    if(cmd == \"cursor\") { std::vector<unsigned char> img = tk.bytes(); unsigned char* p = gb.place(img.data(), img.size(), false);")
+        w("        switch(mi) {")
+        for i in range(len(m.messages)):
+            w("        case %d: cursor_%d(p, img.size(), tk, o); break;" % (i, i))
+        w("        default: return false; }")
+        w("        o.tok(\"BUF \" + rt::Out::hexbytes(p, img.size())); return true; }")
         w("    if(cmd == \"tsize\") { std::size_t which = static_cast<std::size_t>(tk.dec());")
         w("        switch(mi) {")
         for i in range(len(m.messages)):
@@ -453,6 +534,23 @@ class Gen:
 
 
 VISITOR_CODE = r'''
+// value / view reporting for the cursor interpreter (C04)
+template<typename T> void cur_report_impl(rt::Out& o, unsigned char*, const char* name, T t, std::integral_constant<int, 0>) { o.F(name, rt::bits(t.value())); }
+template<typename T> void cur_report_impl(rt::Out& o, unsigned char*, const char* name, T t, std::integral_constant<int, 1>) { o.F(name, rt::enum_bits(t)); }
+template<typename T> void cur_report_impl(rt::Out& o, unsigned char*, const char* name, T t, std::integral_constant<int, 2>) { o.F(name, rt::bits(*t)); }
+template<typename T> void cur_report_impl(rt::Out& o, unsigned char* p, const char* name, T t, std::integral_constant<int, 3>)
+{
+    o.tok(std::string("A ") + name + " @" + std::to_string(reinterpret_cast<unsigned char*>(sbepp::addressof(t)) - p) + " " + rt::Out::hexbytes(t.data(), t.size()));
+}
+template<typename T> void cur_report_impl(rt::Out& o, unsigned char* p, const char* name, T t, std::integral_constant<int, 4>)
+{
+    o.tok(std::string("C ") + name + " @" + std::to_string(reinterpret_cast<unsigned char*>(sbepp::addressof(t)) - p));
+}
+template<typename T> void cur_report(rt::Out& o, unsigned char* p, const char* name, T t)
+{
+    cur_report_impl(o, p, name, t, std::integral_constant<int,
+        sbepp::is_composite<T>::value ? 4 : sbepp::is_enum<T>::value ? 1 : sbepp::is_set<T>::value ? 2 : sbepp::is_array_type<T>::value ? 3 : 0>());
+}
 struct EnumVis
 {
     std::string name;
